@@ -48,8 +48,10 @@ pub struct ShInner {
     pub fails: RefCell<Vec<(String, String)>>,
     pub ops: RefCell<BTreeMap<String, u64>>,
     pub spawner: Spawner,
-    /// tasks started through `spawn_app`: (name, done flag, helper?)
-    pub tasks: RefCell<Vec<(String, Signal<bool>, bool)>>,
+    /// tasks started through `spawn_app`: (name, done flag, helper?, client whose handle it uses)
+    pub tasks: RefCell<Vec<(String, Signal<bool>, bool, usize)>>,
+    /// errors reported by application steps are expected (fault-injection runs)
+    pub tolerant: std::cell::Cell<bool>,
 }
 
 /// State shared by the application tasks of one world.
@@ -67,15 +69,24 @@ impl Sh {
         }
     }
     pub fn fail(&self, sig: &str, detail: String) {
+        if self.0.tolerant.get() {
+            self.op("tolerated-step-failure");
+            return;
+        }
+        self.log(format!("FAIL {}: {}", sig, detail));
+        self.0.fails.borrow_mut().push((sig.to_string(), detail));
+    }
+    /// A failure that no injected fault can explain.
+    pub fn hard_fail(&self, sig: &str, detail: String) {
         self.log(format!("FAIL {}: {}", sig, detail));
         self.0.fails.borrow_mut().push((sig.to_string(), detail));
     }
     /// Starts an application task; `helper` tasks may legitimately still wait when the
     /// applications are done (service loops, consumers).
-    pub fn spawn_app(&self, name: &str, helper: bool, fut: impl std::future::Future<Output = ()> + 'static) -> Signal<bool> {
+    pub fn spawn_app(&self, name: &str, helper: bool, client: usize, fut: impl std::future::Future<Output = ()> + 'static) -> Signal<bool> {
         let done: Signal<bool> = Signal::new();
         let d2 = done.clone();
-        self.0.tasks.borrow_mut().push((name.to_string(), done.clone(), helper));
+        self.0.tasks.borrow_mut().push((name.to_string(), done.clone(), helper, client));
         self.0.spawner.spawn(name, async move {
             fut.await;
             d2.set(true);
@@ -92,6 +103,7 @@ pub struct ClientSlot {
     pub conn_result: Slot<String>,
     pub version: u32,
     pub pipe: Rc<RefCell<Shared>>,
+    pub conn_handle: aldrin_broker::ConnectionHandle,
 }
 
 pub struct World {
@@ -119,6 +131,7 @@ impl World {
             ops: RefCell::new(BTreeMap::new()),
             spawner: dx.spawner(),
             tasks: RefCell::new(Vec::new()),
+            tolerant: std::cell::Cell::new(false),
         }));
         World { dx, broker_task, broker_done, bh, clients: Vec::new(), sh, budget_hit: false }
     }
@@ -141,6 +154,7 @@ impl World {
         let client = cslot.borrow_mut().take().ok_or("client handshake did not complete")??;
         let conn = bslot.borrow_mut().take().ok_or("broker handshake did not complete")??;
         let handle = client.handle().clone();
+        let conn_handle = conn.handle().clone();
         let version = {
             // Client::version consumes the client; ask the downgrade instead
             minor.unwrap_or(20).min(20)
@@ -157,7 +171,7 @@ impl World {
                 Err(e) => format!("Err({:?})", e),
             }
         });
-        self.clients.push(ClientSlot { handle: Some(handle), run_task, run_result, conn_task, conn_result, version, pipe });
+        self.clients.push(ClientSlot { handle: Some(handle), run_task, run_result, conn_task, conn_result, version, pipe, conn_handle });
         Ok(idx)
     }
 
@@ -175,7 +189,27 @@ impl World {
 
     /// Names of application tasks (non-helper unless `all`) that have not finished.
     pub fn unfinished(&self, all: bool) -> Vec<String> {
-        self.sh.0.tasks.borrow().iter().filter(|(_, d, helper)| d.get().is_none() && (all || !*helper)).map(|(n, _, _)| n.clone()).collect()
+        self.sh.0.tasks.borrow().iter().filter(|(_, d, helper, _)| d.get().is_none() && (all || !*helper)).map(|(n, _, _, _)| n.clone()).collect()
+    }
+
+    /// Unfinished tasks (helpers included) that work on the handles of client `c`.
+    pub fn unfinished_of(&self, c: usize) -> Vec<String> {
+        self.sh.0.tasks.borrow().iter().filter(|(_, d, _, cl)| d.get().is_none() && *cl == c).map(|(n, _, _, _)| n.clone()).collect()
+    }
+
+    /// Random scheduling with a callback before every poll (to trigger events at exact points).
+    pub fn run_with(&mut self, rng: &mut Rng, budget: u64, f: &mut dyn FnMut(&mut World)) -> RunEnd {
+        let start = self.dx.polls;
+        loop {
+            f(self);
+            if !self.dx.step_random(rng) {
+                return RunEnd::Quiescent;
+            }
+            if self.dx.polls - start > budget {
+                self.budget_hit = true;
+                return RunEnd::Budget;
+            }
+        }
     }
 
     pub fn set_fault(&self, c: usize, side: usize, at: u64, kind: FaultKind) {
